@@ -576,8 +576,9 @@ func (r *svcRunner) introspect(c *svcClient) {
 	conn := varlink.VerifNewConnection(c.cli)
 	ctx, cancel := context.WithTimeout(context.Background(), 5*time.Second)
 	defer cancel()
-	var vendor, product, version, url string
-	var names []string
+	// the out-variables hold something else before the call: every one of them must be overwritten
+	vendor, product, version, url := "stale-vendor", "stale-product", "stale-version", "stale-url"
+	names := []string{"stale.name"}
 	err := conn.GetInfo(ctx, &vendor, &product, &version, &url, &names)
 	ev := tr.M{"c": c.c, "names": names, "fields_ok": err == nil && vendor == r.ident[0] && product == r.ident[1] && version == r.ident[2] && url == r.ident[3]}
 	if names == nil {
